@@ -228,6 +228,11 @@ func (m *Module) start(reports chan *report) {
 		}
 		// set status
 		if err != nil {
+			// Return to offline, so that the module does not block the
+			// shutdown of the modules it depends on.
+			m.Lock()
+			m.status = StatusOffline
+			m.Unlock()
 			m.Error(
 				fmt.Sprintf("%s:start-failed", m.Name),
 				fmt.Sprintf("Starting module %s failed", m.Name),
